@@ -86,8 +86,7 @@ class PVals(_Generic):
         if self.mask is None:
             cx.oblige("safe.first-row-exists", to_z3(t.n) >= 1, kind="safe", detail=".values[0] of an empty table raises IndexError")
             return z3.IntVal(0)
-        key = id(self.mask)
-        r = t._first.get(key)
+        r = getattr(self.mask, "_first_row", None)  # cached on the mask object itself (an id()-keyed cache can hit a recycled id)
         if r is None:
             r = cx.fresh("first_row", "Int")
             j = z3.Int(f"j!{next(cx.counter)}")
@@ -96,7 +95,7 @@ class PVals(_Generic):
             wit = cx.fresh("some_row", "Int")
             cx.oblige("safe.selected-row-exists", z3.Exists([j], z3.And(j >= 0, j < n, self.mask.f(j))), kind="safe", detail=".values[0] of an empty selection raises IndexError")
             cx.assume(z3.And(r >= 0, r < n, self.mask.f(r), z3.ForAll([j], z3.Implies(z3.And(j >= 0, j < r), z3.Not(self.mask.f(j))))))
-            t._first[key] = r
+            self.mask._first_row = r
         return r
 
     def __getitem__(self, k):
